@@ -104,6 +104,22 @@ def r2_r3_edges(repo: Repo, rep):
                   "interval normals are ±1", floor=7, why="a normal that is not of unit length scales every flux / Neumann condition")
     R3 = rep.rule("R-C06-3", "perpendicularity: the edge normal is the edge direction with swapped components and exactly one sign change (n·d = 0 identically)", floor=2,
                   why="negating both or neither component gives a vector along the edge")
+    # polygons with stored side normals (shapely): normal() hands out rows of the normalised list, or re-normalises what it combines
+    sb = repo.cls(f"{DOM}.domain2D.shapely_polygon.ShapelyBoundary")
+    nm = sb.methods.get("normal")
+    if nm is None:
+        raise AnalysisError("ShapelyBoundary.normal vanished")
+    rep.saw(nm)
+    for p in paths(nm.node):
+        if p.ret is RAISE or p.ret is None:
+            continue
+        r = p.ret
+        while isinstance(r, ast.Call) and isinstance(r.func, ast.Attribute) and r.func.attr in ("to", "float", "clone", "contiguous", "detach"):
+            r = r.func.value
+        selection = isinstance(r, ast.Subscript) and dump(r.value) == "self.normal_list"
+        renorm = isinstance(r, ast.BinOp) and isinstance(r.op, ast.Div) and any(isinstance(c, ast.Call) and (attr_chain(c.func) or "").endswith("norm") for c in ast.walk(r.right))
+        rep.check(R2, selection or renorm, nm.site(p.ret_node), nm.fq, "the returned normals are rows of the normalised side list, or a combination divided by its norm",
+                  dump(r)[:100], f"combined side normals not re-normalised: {dump(r)[:60]}")
     for mod, cname in (("parallelogram", "ParallelogramBoundary"), ("triangle", "TriangleBoundary")):
         ci = repo.cls(f"{DOM}.domain2D.{mod}.{cname}")
         gd = ci.methods.get("_get_normal_direction")
